@@ -167,3 +167,13 @@ LEVEL_TEXT["C10"] = ("Seeded exploration of synthesized streams; tracks, bytes, 
    "dropping of units before the origin and AbsoluteTime are compared with a model of the stream, and an ending stream must end "
    "with ErrClientEOS within a bounded simulated time. Sampling of inputs.")
 NOT_APPLICABLE.pop("C10", None)
+
+META["C13"] = {"level": "exploration",
+   "rule": "twin profile: a well-formed stream model is turned into a well-formed-but-unexpected one (extra/only/first track with a codec gohlslib has no decoder for - MPEG-1 audio, AC-3, MJPEG, LPCM, MPEG-4/MPEG-1 video in fMP4; Opus, MP3, H265 in MPEG-TS - track-id permutations, no leading-track data from some segment on, 12 tracks, zero/huge durations, base times and PTS offsets, mixed MPEG-TS/fMP4 renditions) and served consistently. spot profile: 1-3 request positions (0..25) get their response damaged at the byte level (playlists: line loss/duplication/swap, truncation, numeric damage, byte flips, splices of the repository's fuzz corpora; media: truncation at every box/packet boundary or anywhere, empty body, payload flips, duplication, holes), optionally on top of a twin. Non-trivial = something was damaged; distinct = distinct signatures.",
+   "real": CLI_REAL, "stub": CLI_STUB,
+   "assumptions": CLI_ASSUME + ["random byte flips in media are confined to the payload half of a body so that box/packet sizes stay sane (memory exhaustion inside the mediacommon dependency is out of scope)",
+                                "a client that has neither ended nor failed at the time limit is accepted only while one of its goroutines is pacing a sample or a request is still in flight"]}
+LEVEL_TEXT["C13"] = ("Seeded exploration of structure-aware and byte-level damage to server responses at every request position; "
+   "a panic kills the worker and is attributed by stack, a busy loop is caught by the watchdog, a silent stall by goroutine "
+   "inspection at the time limit, and Close must still end the client without leaked goroutines. Sampling of inputs and fault positions.")
+NOT_APPLICABLE.pop("C13", None)
